@@ -34,7 +34,7 @@ def strategy(tier):
     return S.scenarios(PROFILE)
 
 
-def oracle(case, trace, ix, res, prefix='C07'):
+def oracle(case, trace, ix, res, prefix='C07', focus=None):
     parent_of = {}
     window = {}
     for sp in ix.scheds():
@@ -51,7 +51,7 @@ def oracle(case, trace, ix, res, prefix='C07'):
         if ev['kind'] in ('enter', 'run-begin'):
             count[p] = count.get(p, 0) + 1
             peak[p] = max(peak.get(p, 0), count[p])
-            if window[p] and count[p] > window[p]:
+            if window[p] and count[p] > window[p] and (focus is None or focus(p, who)):
                 res.fail(prefix + ':window-exceeded',
                          "scheduler %s has jobs_window=%s but %d of its direct jobs execute "
                          "at t=%s (seq %d, %s enters)" % (p, window[p], count[p], ev['t'],
